@@ -115,6 +115,16 @@ add("C34", "exploration", "bounded exhaustive enumeration of texts at token and 
     "Every PAR token sequence up to length 3 (thorough 4) in four frames, every character string up to length 3 (4) over 20 characters in three frames, and the repository inputs: parol's grammar parser reports a syntax error exactly when the language server's parser does.",
     LS + " (command `parse`)")
 
+add("C22", "exploration", "bounded enumeration of annotated grammars x generator options, generated by the real Builder and compiled by rustc as modules of one crate; rustc as oracle",
+    "EBNF bodies with clipping, member names, terminal user types, nested optionals/repetitions, recursion x LL/LALR x generator options, %t_type, terminal texts that are meta characters of the generated Rust source, comments and scanner states, non-terminal / member names the generated code uses itself, and a slice of the enumerated spaces: cargo build of the batch must succeed; failing modules are identified from rustc's messages, reported and excluded, and the batch is rebuilt.",
+    "the size of this space is set by compile time; user types are limited to terminals (conversions for non-terminal user types are hand-written per grammar)")
+add("C23", "exploration", "bounded exhaustive enumeration of inputs against compiled generated parsers; token sequence / option presence recomputed from the input; conformance with the in-process binding",
+    "For the C22 modules that come with an alphabet every token string up to length 4 is parsed by the rustc-compiled generated parser with a user action on the start symbol that records its argument: on accepted inputs the action is called once (once per occurrence for a recursive start symbol), the tokens in the AST in order are the non-clipped input tokens, optional parts are Some exactly when their terminal occurs, and verdicts equal those of the in-process binding of the same source.",
+    "AST content is read from its Debug rendering")
+add("C24", "model_checking", "depth-first search over all iteration orders of the hash maps in group_by/find_prefix (choice oracle behind hook H2) with a deviation bound; multi-process runs of the un-hooked CLI as seam conformance",
+    "For grammars with tie situations (equal prefix groups, several non-terminals to factor, many equal final states, several scanner transitions) every choice sequence with at most 1 (thorough 2) deviations from insertion order is executed on the real pipeline; expanded grammar and parser source must be byte-identical to the default order. The un-hooked command line tool is additionally run in separate processes and must produce identical files.",
+    "HashMap may iterate in any order; other std HashMap/HashSet uses in the generators are covered only by the multi-process runs (sampling of hash seeds, evidence for the seam)")
+
 NOT_BUILT = {}
 
 def main():
